@@ -144,6 +144,9 @@ def _job(args):
                 else:
                     configs.append(("include + a file exclusion (regex) that matches an external module's name",
                                     dict(exclude_external_libraries=False, exclusions=(), regex_exclusions=((".*" if "." in xt else "") + re.escape(xt) + "$",)), True, ()))
+                # the pattern option that is not used passed explicitly as an empty tuple instead of being left out
+                configs.append(("include+regex, glob patterns given as ()", dict(exclude_external_libraries=False, external_exclusions=(), regex_external_exclusions=user_rx), True, user_rx))
+                configs.append(("include+glob, regex patterns given as ()", dict(exclude_external_libraries=False, external_exclusions=glob, regex_external_exclusions=()), True, rx))
                 internal_views = []
                 enc = rules.Enc()
                 cases, metas = [], []
